@@ -344,6 +344,33 @@ def rule_r5(p, res):
     r.instance(pt)
     cs = [norm(c) for c in calls_in(pt.node)]
     r.check(any(x.startswith("Tree.__init__(self, adjacency_matrix, root_vertex") for x in cs), pt, pt.node, "PointTree must initialise its Tree part with the root")
+    _predefined_roots(p, r)
+
+
+def _predefined_roots(p, r):
+    """the root recorded for a predefined tree is the vertex its edges start from"""
+    GP = "menpo.shape.graph_predefined."
+    sg = p.func(GP + "star_graph")
+    r.instance(sg)
+    hub = [k for k in calls_in(sg.node) if (dotted(k.func) or "") == "_get_star_graph_edges"]
+    need(len(hub) == 1 and len(hub[0].args) == 2, "C14.R5: star_graph no longer builds its edges with _get_star_graph_edges(vertices, hub)")
+    hubx = norm(hub[0].args[1])
+    r.check(hubx == sg.params[1], sg, hub[0], "the star's edges must fan out from the requested root vertex")
+    roots = [(k, kwarg(k, "root_vertex")) for k in calls_in(sg.node) if kwarg(k, "root_vertex") is not None]
+    need(len(roots) >= 2, "C14.R5: star_graph's tree constructions were not found")
+    for k, v in roots:
+        r.check(norm(v) == hubx, sg, k, "star_graph records root_vertex=%s on this path while its edges fan out from `%s`: root, parent and depth queries then contradict the edges"
+                % (norm(v), hubx), {"builder": "star_graph", "root": norm(v)})
+    he = p.func(GP + "_get_star_graph_edges")
+    r.instance(he)
+    s_ = norm(he.node)
+    r.check("edges.append([%s, v])" % he.params[1] in s_, he, he.node, "every star edge must lead from the hub to another vertex")
+    cg = p.func(GP + "chain_graph")
+    r.instance(cg)
+    for k in calls_in(cg.node):
+        v = kwarg(k, "root_vertex")
+        if v is not None:
+            r.check(const_value(v) == 0, cg, k, "a chain's edges start at vertex 0, which must be the recorded root (found root_vertex=%s)" % norm(v), {"builder": "chain_graph", "root": norm(v)})
 
 
 def rule_r6(p, res):
@@ -402,4 +429,9 @@ WITNESSES = [
             rule="C14.R4", construct="PointUndirectedGraph.minimum_spanning_tree", note="seeded change R2-C14-B"),
     Witness("C14.T1", "menpo/shape/graph.py", "Graph.get_adjacency_list", "from_v = rows[i]\n        to_v = cols[i]\n        adjacency_list[from_v].append(to_v)",
             "adjacency_list[rows[i]].append(cols[i])", kind="T"),
+]
+
+WITNESSES += [
+    Witness("C14.W14", "menpo/shape/graph_predefined.py", "star_graph", "graph_cls.init_from_edges(edges=edges, n_vertices=n_vertices, root_vertex=root_vertex, skip_checks=True)",
+            "graph_cls.init_from_edges(edges=edges, n_vertices=n_vertices, root_vertex=0, skip_checks=True)", rule="C14.R5", construct="star_graph", note="seeded change R3-C14-B"),
 ]
